@@ -47,7 +47,7 @@ VARIABLES tid, verdict
 FnOf(pairs) == [x \in {p[1] : p \in Range(pairs)} |-> (CHOOSE p \in Range(pairs) : p[1] = x)[2]]
 Restrict(f, S) == [x \in DOMAIN f \cap S |-> f[x]]
 DriftVerdicts == {"drift:malformed-number", "drift:show-config-before-ini-options", "drift:order", "drift:variant", "drift:auto-order",
-                  "drift:append-replaces-built-in-section"}
+                  "drift:append-replaces-built-in-section", "drift:config-line-added-twice"}
 IsDrift(s) == s \in DriftVerdicts
 Soft(s) == s = "ok" \/ IsDrift(s)
 \* the first hard failure, else the first drift, else "ok"
@@ -102,8 +102,11 @@ CfgClause(g, V) ==
 CfgsClause(gs, V) == First(Fails([i \in 1..Len(gs) |-> CfgClause(gs[i], V)]))
 
 \* ---- skool2html with ref files ----------------------------------------------------------------------------
-UQClause(q, U) ==
-  IF (q.has = 1) # Has(U, q.n) THEN "user-has-section" ELSE IF q.raw # LinesOf(U, q.n) THEN "user-section-lines" ELSE "ok"
+UQClause(q, U, U2) ==
+  IF (q.has = 1) # Has(U, q.n) THEN "user-has-section"
+  ELSE IF q.raw = LinesOf(U, q.n) THEN "ok"
+  ELSE IF q.n = CONFIG /\ q.raw = LinesOf(U2, q.n) THEN "drift:config-line-added-twice"
+  ELSE "user-section-lines"
 \* "Content may be appended to an existing ref file section defined elsewhere by adding a '+' suffix": when the section
 \* exists only in the built-in ref file and the user's files only ever append to it, HtmlWriter.get_section returns the
 \* appended lines alone.  Both that and built-in + appended lines are accepted; the former is counted (drift).
@@ -127,7 +130,8 @@ SiteClause(c, V, auto, strict) ==
   IF ~AllNamed(c.dir, c.cmd) THEN "machinery:cmd-file"
   ELSE LET D == DefaultSecs(V)
            U == UserSections(auto, c.dir, c.cmd, c.cli, V)
-       IN First(Fails([i \in 1..Len(c.uq) |-> UQClause(c.uq[i], U)] \o [i \in 1..Len(c.q) |-> WQClause(c, c.q[i], D, U)]
+           U2 == UserSectionsTwice(auto, c.dir, c.cmd, c.cli, V)
+       IN First(Fails([i \in 1..Len(c.uq) |-> UQClause(c.uq[i], U, U2)] \o [i \in 1..Len(c.q) |-> WQClause(c, c.q[i], D, U)]
                       \o [i \in 1..Len(c.fam) |-> WFClause(c.fam[i], D, U, strict)] \o <<CfgsClause(c.cfg, V)>>))
 Perms(n) == {f \in [1..n -> 1..n] : \A i, j \in 1..n : f[i] = f[j] => i = j}
 Permuted(q, f) == [i \in 1..Len(q) |-> q[f[i]]]
